@@ -58,7 +58,9 @@ def gen_namespace_case(r, i):
             else:
                 form = r.choice(['call { %s }', 'if (true) then { %s }', '{ %s } forEach [1]', 'for "_i" from 1 to 1 do { %s }',
                                  'switch (1) do { case 1: { %s } }', 'try { %s } catch { }', 'if (true || { false }) then { %s }',
-                                 '0 call { %s }', '[1] apply { %s; 0 }', 'isNil { %s; 0 }'])
+                                 '0 call { %s }', '[1] apply { %s; 0 }', 'isNil { %s; 0 }',
+                                 # the code operand of a lazy and / or runs in the namespace that is selected where it stands
+                                 'true && { %s; true }', 'false || { %s; true }', 'true and { %s; false }', 'false or { %s; false }'])
                 stmts.append(form % block(depth + 1, cur))
         return '; '.join(stmts)
     body = block(0, 0)
@@ -142,7 +144,7 @@ def run(ctx):
                                                  'program': c['text'], 'implementation': (got or '')[:3000], 'model': (model.get(c['id']) or '')[:3000],
                                                  'line': c['line']})
     cov = {'evaluations': len(cases), 'distinct_nontrivial': len(distinct),
-           'rule': '(a) random programs that declare, shadow, assign and read the same few local names (_a,_b,_c) across nested call / control-structure scopes with random letter case, private / private _x = / plain assignment, loops whose bodies declare locals — per-instruction trace vs the Lean model and trace/globals vs the reference interpreter (dynamic scope chain); (n) global reads/writes, getVariable/setVariable inside nested with-namespace blocks and inside constructs started from them, oracle = one dictionary per namespace; (p) spawned scripts probing the starter\'s locals and vice versa under execute(start); distinct by text',
+           'rule': '(a) random programs that declare, shadow, assign and read the same few local names (_a,_b,_c) across nested call / control-structure scopes with random letter case, private / private _x = / plain assignment, loops whose bodies declare locals — per-instruction trace vs the Lean model and trace/globals vs the reference interpreter (dynamic scope chain); (n) global reads/writes, getVariable/setVariable inside nested with-namespace blocks and inside constructs started from them (call, if, forEach, for, switch, try, apply, isNil, the code operand of a lazy and/or), oracle = one dictionary per namespace; (p) spawned scripts probing the starter\'s locals and vice versa under execute(start); distinct by text',
            'samples': samples, 'oracle_failures': n_or, 'model_mismatches': n_mm, 'construct_counts': st1,
            'namespace_cases': n_ns, 'spawn_cases': n_sp}
     return rep.finish(cov, ['execVM (a file-based spawn) is covered with C16', 'params (binding part) is not modelled: it is not generated'])
